@@ -121,7 +121,9 @@ def teleport(state, action, rng):
     ensures('else-stay', lambda: implies(not has_partner, lambda: state.agent.position == p0))
     ensures('frame', lambda: state.agent.orientation is o0 and same(state.grid, g0)
             and same(state.agent.grid_object, hand))
-    ensures('draws-only-on-pod', lambda: draws(rng) == (1 if has_partner else 0))
+    # how many draws a choice among partners takes is not part of the property (a single-pass sampler draws
+    # once per candidate): only 'nothing to choose => nothing drawn' is demanded, like the deterministic transitions
+    ensures('draws-only-on-pod', lambda: implies(not has_partner, lambda: draws(rng) == 0))
     ensures('each-partner-possible', lambda: forall_cells(g0, lambda q: implies(
         on_pod and partner(q), lambda: possible(rng, lambda: state.agent.position == q))))
 
